@@ -10,7 +10,7 @@
 static int CAP0, OSZ, POLICY, N;
 typedef struct { int n; int e[MAXN + 2]; } model_t;
 static sm_spec_t SP;
-static unsigned char ELB[3][64];
+static unsigned char ELB[3][128];
 
 enum { OP_ADDFIRST, OP_ADDLAST, OP_ADDAT, OP_SETAT, OP_SETFIRST, OP_SETLAST, OP_POPAT, OP_POPFIRST, OP_POPLAST, OP_REMOVEAT, OP_REMOVEFIRST, OP_REMOVELAST, OP_REVERSE, OP_RESIZE, OP_CLEAR, OP_RESIZEHUGE, OP_WALKSHRINK };
 typedef struct { int kind, i, e; const char *label; } op_t;
